@@ -1,5 +1,24 @@
 package driver
 
-import "golang.org/x/tools/go/ssa"
+import (
+	"os"
+	"os/exec"
+	"strings"
+
+	"golang.org/x/tools/go/ssa"
+)
 
 type ssaPackage = ssa.Package
+
+// solverCmd returns the SMT solver command (VERIF_SOLVER overrides; default z3 5.1.0, because
+// z3 4.8.12 answers sat on some unsatisfiable queries that apply an uninterpreted function to
+// floating-point arguments).
+func solverCmd() []string {
+	if s := os.Getenv("VERIF_SOLVER"); s != "" {
+		return strings.Fields(s)
+	}
+	if p, err := exec.LookPath("z3-new"); err == nil {
+		return []string{p, "-in"}
+	}
+	return []string{"z3", "-in"}
+}
